@@ -3,7 +3,7 @@ from ..cfg import cfg_of
 from ..defuse import du_of, walk, peel, callee_name, fmt
 from ..conds import lits_of
 from ..callgraph import cg_of
-from ..common import arg_term, contains_call, call_named
+from ..common import arg_term, contains_call, call_named, whole_iteration
 
 TEXT = ("Dominance and provenance rules on resolve_as and on every site that re-asserts an object read back from "
         "storage. V1: every state mutation in resolve_as is edge-dominated by `leafs.contains(chosen)` and "
@@ -98,7 +98,7 @@ def run(facts, res):
             if x[0] == "call" and callee_name(x) == "next":
                 chain = x[2][0]
                 names = [callee_name(c) for c in walk(chain) if c[0] == "call"]
-                if "get_leafs" in names and not (set(names) & {"take", "skip", "filter", "step_by", "take_while", "skip_while", "nth"}):
+                if "get_leafs" in names and whole_iteration(b, par):
                     whole = True
         # under leaf != winner where winner = get_winner() of the tree
         ne = False
